@@ -33,23 +33,32 @@ theorem foldl_pres_mem {α} (P : BSt → Prop) (step : BSt → α → BSt) :
   | a :: as, s, h, hs =>
     foldl_pres_mem P step as _ (fun x b hb hx => h x b (List.mem_cons_of_mem _ hb) hx) (h s a List.mem_cons_self hs)
 
+theorem reapSinksInj_fview2 (inj : BSt → Nat → BSt) (hq : Quiet9 inj) (sids : List Nat) :
+    ∀ (s : BSt), fview2 (reapSinksInj inj s sids) = fview2 s := by
+  unfold reapSinksInj
+  induction sids with
+  | nil => intro s; rfl
+  | cons x xs ih =>
+    intro s
+    simp only [List.foldl_cons]
+    rw [ih]; split
+    · obtain ⟨sc, h⟩ := hq ((s.setSink x (fun k => { k with alive := false })).emit (.sinkDtor x))
+      rw [h]; rfl
+    · rfl
+
 /-- **the logger clean-up raises a recorded removal flag only for a name one of whose objects it erased in this
-    very pass** (and, by the order of the code, after the erase and the sink pruning) -/
-theorem cleanupLoggers_flags (s : BSt) :
-    ∀ f ∈ (cleanupLoggers s).flags, f ∈ s.flags ∨
+    very pass** (and, by the order of the code, after the erase and the sink pruning); nothing injected at site 9 -/
+theorem cleanupLoggers_flags (inj : BSt → Nat → BSt) (hq : Quiet9 inj) (s : BSt) :
+    ∀ f ∈ (cleanupLoggers inj s).flags, f ∈ s.flags ∨
       ∃ g i, (g, f) ∈ s.removalFlags ∧ i < s.lgs.length ∧ (s.lgOf i).gid = g ∧ (s.lgOf i).erased = false ∧
-        ((cleanupLoggers s).lgOf i).erased = true := by
-  unfold cleanupLoggers
+        ((cleanupLoggers inj s).lgOf i).erased = true := by
+  rw [cleanupLoggers_eq]
   split
   · intro f hf; exact Or.inl hf
-  · simp only []
-    -- the loggers visited are those not yet erased
-    have hord : ∀ i ∈ insSorted (fun a b => decide ((({ s with hasInvalidLoggers := false } : BSt).lgOf a).gid ≤
-          (({ s with hasInvalidLoggers := false } : BSt).lgOf b).gid))
-        ((List.range ({ s with hasInvalidLoggers := false } : BSt).lgs.length).filter
-          (fun i => !(({ s with hasInvalidLoggers := false } : BSt).lgOf i).erased)),
-        i < s.lgs.length ∧ (s.lgOf i).erased = false := by
+  · -- the loggers visited are those not yet erased
+    have hord : ∀ i ∈ lgOrder { s with hasInvalidLoggers := false }, i < s.lgs.length ∧ (s.lgOf i).erased = false := by
       intro i hi
+      unfold lgOrder at hi
       rw [mem_insSorted, List.mem_filter, List.mem_range] at hi
       have h2 : (s.lgOf i).erased = false := by
         have := hi.2
@@ -57,7 +66,7 @@ theorem cleanupLoggers_flags (s : BSt) :
         exact this
       exact ⟨hi.1, h2⟩
     revert hord
-    generalize insSorted _ ((List.range ({ s with hasInvalidLoggers := false } : BSt).lgs.length).filter _) = order
+    generalize lgOrder { s with hasInvalidLoggers := false } = order
     intro hord
     -- first loop
     have hfold : ∀ (l : List Nat) (acc : BSt × List Nat), (∀ i ∈ l, i < s.lgs.length ∧ (s.lgOf i).erased = false) →
@@ -65,16 +74,11 @@ theorem cleanupLoggers_flags (s : BSt) :
          (∀ i, (acc.1.lgOf i).gid = (s.lgOf i).gid) ∧
          (∀ g ∈ acc.2, ∃ i, i < s.lgs.length ∧ (s.lgOf i).gid = g ∧ (s.lgOf i).erased = false ∧
             (acc.1.lgOf i).erased = true)) →
-        let r := l.foldl (fun (acc : BSt × List Nat) i =>
-          if (acc.1.lgOf i).valid then acc else
-          if (allEmpty acc.1).2 then
-            (reapSinks ((allEmpty acc.1).1.setLg i (fun l => { l with erased := true })) (acc.1.lgOf i).sinks,
-              acc.2 ++ [(acc.1.lgOf i).gid])
-          else ({ (allEmpty acc.1).1 with hasInvalidLoggers := true }, acc.2)) acc
-        (r.1.flags = s.flags ∧ r.1.removalFlags = s.removalFlags ∧ r.1.lgs.length = s.lgs.length ∧
-         (∀ i, (r.1.lgOf i).gid = (s.lgOf i).gid) ∧
-         (∀ g ∈ r.2, ∃ i, i < s.lgs.length ∧ (s.lgOf i).gid = g ∧ (s.lgOf i).erased = false ∧
-            (r.1.lgOf i).erased = true)) := by
+        ((l.foldl (lgStep inj) acc).1.flags = s.flags ∧ (l.foldl (lgStep inj) acc).1.removalFlags = s.removalFlags ∧
+         (l.foldl (lgStep inj) acc).1.lgs.length = s.lgs.length ∧
+         (∀ i, ((l.foldl (lgStep inj) acc).1.lgOf i).gid = (s.lgOf i).gid) ∧
+         (∀ g ∈ (l.foldl (lgStep inj) acc).2, ∃ i, i < s.lgs.length ∧ (s.lgOf i).gid = g ∧ (s.lgOf i).erased = false ∧
+            ((l.foldl (lgStep inj) acc).1.lgOf i).erased = true)) := by
       intro l
       induction l with
       | nil => intro acc _ h; exact h
@@ -86,14 +90,15 @@ theorem cleanupLoggers_flags (s : BSt) :
         have hae := allEmpty_fview2 acc.1
         simp only [fview2, Prod.mk.injEq] at hae
         obtain ⟨e1, e2, e3⟩ := hae
+        unfold lgStep
         split
         · exact ⟨h1, h2, h3, h4, h5⟩
         · split
           · -- erase `i`
-            have hrs := reapSinks_fview2 (acc.1.lgOf i).sinks ((allEmpty acc.1).1.setLg i (fun l => { l with erased := true }))
+            have hrs := reapSinksInj_fview2 inj hq (acc.1.lgOf i).sinks ((allEmpty acc.1).1.setLg i (fun l => { l with erased := true }))
             simp only [fview2, Prod.mk.injEq] at hrs
             obtain ⟨r1, r2, r3⟩ := hrs
-            have hlgOf : ∀ j, (reapSinks ((allEmpty acc.1).1.setLg i (fun l => { l with erased := true }))
+            have hlgOf : ∀ j, (reapSinksInj inj ((allEmpty acc.1).1.setLg i (fun l => { l with erased := true }))
                 (acc.1.lgOf i).sinks).lgOf j = ((allEmpty acc.1).1.setLg i (fun l => { l with erased := true })).lgOf j := by
               intro j
               show List.getD _ j default = List.getD _ j default
@@ -101,18 +106,18 @@ theorem cleanupLoggers_flags (s : BSt) :
             have hlg0 : ∀ j, (allEmpty acc.1).1.lgOf j = acc.1.lgOf j := fun j => by simp only [BSt.lgOf, e3]
             have hlen0 : (allEmpty acc.1).1.lgs.length = acc.1.lgs.length := by rw [e3]
             refine ⟨?_, ?_, ?_, ?_, ?_⟩
-            · show (reapSinks _ _).flags = _; rw [r1]; show (allEmpty acc.1).1.flags = _; rw [e1]; exact h1
-            · show (reapSinks _ _).removalFlags = _; rw [r2]; show (allEmpty acc.1).1.removalFlags = _; rw [e2]; exact h2
-            · show (reapSinks _ _).lgs.length = _; rw [r3, lgs_length_setLg, hlen0]; exact h3
+            · show (reapSinksInj _ _ _).flags = _; rw [r1]; show (allEmpty acc.1).1.flags = _; rw [e1]; exact h1
+            · show (reapSinksInj _ _ _).removalFlags = _; rw [r2]; show (allEmpty acc.1).1.removalFlags = _; rw [e2]; exact h2
+            · show (reapSinksInj _ _ _).lgs.length = _; rw [r3, lgs_length_setLg, hlen0]; exact h3
             · intro j
-              show ((reapSinks _ _).lgOf j).gid = _
+              show ((reapSinksInj _ _ _).lgOf j).gid = _
               rw [hlgOf, lgOf_setLg]
               split
               · show ((allEmpty acc.1).1.lgOf j).gid = _; rw [hlg0]; exact h4 j
               · rw [hlg0]; exact h4 j
             · intro g hg
               show ∃ i', i' < s.lgs.length ∧ (s.lgOf i').gid = g ∧ (s.lgOf i').erased = false ∧
-                ((reapSinks _ _).lgOf i').erased = true
+                ((reapSinksInj _ _ _).lgOf i').erased = true
               rcases List.mem_append.mp hg with hg | hg
               · obtain ⟨i', a1, a2, a3, a4⟩ := h5 g hg
                 refine ⟨i', a1, a2, a3, ?_⟩
@@ -141,23 +146,19 @@ theorem cleanupLoggers_flags (s : BSt) :
     have h1 := hfold order ({ s with hasInvalidLoggers := false }, []) hord
       ⟨rfl, rfl, rfl, fun _ => rfl, fun g hg => by cases hg⟩
     revert h1
-    generalize order.foldl _ ({ s with hasInvalidLoggers := false }, ([] : List Nat)) = res
+    generalize order.foldl (lgStep inj) ({ s with hasInvalidLoggers := false }, ([] : List Nat)) = res
     intro h1
     obtain ⟨s1, removed⟩ := res
     simp only [] at h1 ⊢
     obtain ⟨q1, q2, q3, q4, q5⟩ := h1
     -- second loop
-    have h2 : (∀ x : BSt, x = x) := fun _ => rfl
     have hK := foldl_pres_mem (fun x => x.lgs = s1.lgs ∧ (∀ p ∈ x.removalFlags, p ∈ s.removalFlags) ∧
         ∀ f ∈ x.flags, f ∈ s.flags ∨ ∃ g ∈ removed, (g, f) ∈ s.removalFlags)
-      (fun s gid =>
-        match s.removalFlags.find? (·.1 = gid) with
-        | some (_, f) => { s with flags := f :: s.flags, flagLog := (f, s.log.length) :: s.flagLog,
-                                  removalFlags := s.removalFlags.filter (·.1 ≠ gid) }
-        | none => s) removed s1
+      flagStep removed s1
       (by
         intro x gid hgid hx
         obtain ⟨k1, k2, k3⟩ := hx
+        unfold flagStep
         split
         · rename_i g' f hfind
           have hm := List.mem_of_find?_eq_some hfind
